@@ -685,6 +685,18 @@ func TestC08(t *testing.T) {
 			// the failed attempts must not have disturbed the stream … not demanded; but a
 			// clone taken now continues the stream and inherits the squeezing state
 			if after := c.clone(root); after != nil {
+				// the clone inherits the squeezing state without a Read of its own:
+				// probe Sum/Write before its first Read in 2 of 3 histories
+				switch r.IntN(3) {
+				case 0:
+					c.sum(after)
+					c.write(after, mon.Bytes(r, 1+r.IntN(4)))
+					m.Count("squeezing_clone_sum_before_own_read", 1)
+				case 1:
+					c.write(after, mon.Bytes(r, 1+r.IntN(4)))
+					c.sum(after)
+					m.Count("squeezing_clone_sum_before_own_read", 1)
+				}
 				c.read(after, 1+r.IntN(v.rate+2))
 				c.read(root, 1+r.IntN(v.rate+2)) // root unaffected by the clone's Read
 				c.sum(after)
@@ -754,6 +766,7 @@ func TestC08(t *testing.T) {
 	m.Gate("write_after_read_panics", q(2000, 80000), "documented Write-after-Read panic observed")
 	m.Gate("sum_after_read_panics", q(1500, 60000), "documented Sum-after-Read panic observed")
 	m.Gate("clone_after_read_checked", q(1200, 48000), "clone of a squeezing state continued and probed")
+	m.Gate("squeezing_clone_sum_before_own_read", q(500, 20000), "Sum/Write on a clone of a squeezing state before the clone itself was read from")
 	m.Gate("clones_diverged", q(2500, 100000), "clones written to independently and compared")
 	m.Gate("resets_after_read", q(500, 20000), "Reset after Read followed by Sum+Write probe")
 	m.Gate("cshake_empty_NS_equals_shake", q(50, 2000), "cSHAKE with empty N and S compared with SHAKE definition (and gcrypt SHAKE)")
